@@ -17,6 +17,12 @@
 (*   subsample mode  the checks were shown the selected rows only               *)
 (* RowOK / the explicit sub-frame are the declarative side; DropIsExact and      *)
 (* SubsampleIsSubframe are proved by TLC for the design (Dev = {}).              *)
+(*                                                                           *)
+(* The pandas frame also has an INDEX LABELLING ix (the design never looks at   *)
+(* it: rows are rows): unique labels, repeated labels, a two-level MultiIndex   *)
+(* with unique / with repeated entries.  The shipped pandas back end identifies *)
+(* rows by label when it drops (isin) and when it de-duplicates the head/tail   *)
+(* selection; ShippedKept / ShippedVerdict carry that as known findings.        *)
 (***************************************************************************)
 EXTENDS Integers, Sequences, FiniteSets, TLC, Json
 
@@ -64,14 +70,20 @@ Selected(n, h, t) == (IF h >= 0 THEN 1..(IF h < n THEN h ELSE n) ELSE {}) \cup (
 DedupByValue(D, rows) == {i \in rows : ~\E j \in rows : j < i /\ D.a[j] = D.a[i] /\ D.b[j] = D.b[i]}
 
 ---------------------------------------------------------------------------
-VARIABLES backend, mode, S, D, h, t, dev, rows, bad, k, out
-vars == <<backend, mode, S, D, h, t, dev, rows, bad, k, out>>
+VARIABLES backend, mode, S, D, h, t, dev, rows, bad, k, out, ix
+vars == <<backend, mode, S, D, h, t, dev, rows, bad, k, out, ix>>
+
+(* index labellings of the pandas frame; rows 1 and 2 share a label in the "dup" kinds *)
+IxKinds(b, n) == IF b = "pandas" /\ n >= 2 THEN {"unique", "dup", "multi", "multidup"} ELSE {"unique"}
+LabelOf(ixk, i) == IF ixk \in {"dup", "multidup"} THEN (i + 1) \div 2 ELSE i + 10
+DedupByLabel(ixk, rws) == {i \in rws : ~\E j \in rws : j < i /\ LabelOf(ixk, j) = LabelOf(ixk, i)}
 
 AtMostOneNull(a) == Cardinality({i \in DOMAIN a : a[i] = Null}) <= 1
 Init ==
   /\ backend \in Backends /\ mode \in {"drop", "subsample"} /\ S \in Schemas(backend)
   /\ \E n \in 1..(IF mode = "drop" THEN MaxRows ELSE MaxRowsSub) : /\ D \in [a : [1..n -> ValsA], b : [1..n -> ValsB]]
                            /\ AtMostOneNull(D.a)          \* null-null duplicates: Series slice + DuplicateNullsNotReported
+                           /\ ix \in IxKinds(backend, n)
                            /\ IF mode = "subsample"
                               THEN /\ h \in -1..n /\ t \in -1..n /\ ~(h = -1 /\ t = -1)
                                    /\ rows = Selected(n, h, t)
@@ -81,11 +93,11 @@ Init ==
 (* one core check / check per step: collect the failing rows it reports *)
 RunStage == /\ k <= Len(Stages) /\ out.kind = "none"
             /\ bad' = bad \cup Fail(Stages[k], S, D, rows)
-            /\ k' = k + 1 /\ UNCHANGED <<backend, mode, S, D, h, t, dev, rows, out>>
+            /\ k' = k + 1 /\ UNCHANGED <<backend, mode, S, D, h, t, dev, rows, out, ix>>
 Finish == /\ k > Len(Stages) /\ out.kind = "none"
           /\ out' = IF mode = "drop" THEN [kind |-> "ok", kept |-> SetToSeq((DOMAIN D.a) \ bad)]
                     ELSE IF bad = {} THEN [kind |-> "ok", kept |-> SetToSeq(DOMAIN D.a)] ELSE [kind |-> "raises", kept |-> <<>>]
-          /\ UNCHANGED <<backend, mode, S, D, h, t, dev, rows, bad, k>>
+          /\ UNCHANGED <<backend, mode, S, D, h, t, dev, rows, bad, k, ix>>
 Next == RunStage \/ Finish
 Spec == Init /\ [][Next]_vars
 
@@ -103,8 +115,10 @@ SelectAllIsNoOption == (Done /\ mode = "subsample" /\ rows = DOMAIN D.a) =>
    ((out.kind = "ok") <=> (\A i \in DOMAIN D.a : RowOK(S, D, i)))
 
 (* what the shipped polars subsampling predicts (known finding) *)
+ShippedSelection == IF mode # "subsample" THEN rows
+                    ELSE IF backend = "polars" THEN DedupByValue(D, rows) ELSE DedupByLabel(ix, rows)
 ShippedVerdict ==
-  LET sel == IF backend = "polars" /\ mode = "subsample" THEN DedupByValue(D, rows) ELSE rows
+  LET sel == ShippedSelection
   IN IF \A j \in 1..Len(Stages) : Fail(Stages[j], S, D, sel) = {} THEN "ok" ELSE "raises"
 
 (* deviation PolarsDropKeepsJointDuplicates: the joint-uniqueness error of the polars back end carries no   *)
@@ -112,13 +126,16 @@ ShippedVerdict ==
 ShippedKept ==
   IF backend = "polars"
   THEN SetToSeq({i \in DOMAIN D.a : \A j \in 1..Len(Stages) : Stages[j] = "joint" \/ i \notin Fail(Stages[j], S, D, DOMAIN D.a)})
-  ELSE out.kept
+  ELSE LET badlabels == {LabelOf(ix, j) : j \in bad}          \* DropByLabelRemovesValidRows: survivors are chosen by label
+       IN SetToSeq({i \in DOMAIN D.a : LabelOf(ix, i) \notin badlabels})
 
 Emit == Done =>
   PrintT(ToJson([kind |-> "rows", backend |-> backend, mode |-> mode, schema |-> S, a |-> D.a, b |-> D.b,
-                 head |-> h, tail |-> t, expect |-> out,
+                 head |-> h, tail |-> t, ix |-> ix, expect |-> out,
                  asis |-> IF mode = "subsample" THEN ShippedVerdict ELSE out.kind,
                  asis_kept |-> IF mode = "drop" THEN ShippedKept ELSE <<>>,
-                 devs |-> (IF mode = "subsample" /\ ShippedVerdict # out.kind THEN {"PolarsSubsampleDedupByValue"} ELSE {})
-                          \cup (IF mode = "drop" /\ ShippedKept # out.kept THEN {"PolarsDropKeepsJointDuplicates"} ELSE {})]))
+                 devs |-> (IF mode = "subsample" /\ ShippedVerdict # out.kind
+                           THEN {IF backend = "polars" THEN "PolarsSubsampleDedupByValue" ELSE "SubsampleDedupByLabel"} ELSE {})
+                          \cup (IF mode = "drop" /\ ShippedKept # out.kept
+                                THEN {IF backend = "polars" THEN "PolarsDropKeepsJointDuplicates" ELSE "DropByLabelRemovesValidRows"} ELSE {})]))
 =============================================================================
